@@ -128,6 +128,26 @@ class C04(Engine):
             seq = rng.choices(CLASSES, weights=w, k=L)
             mode = ("explicit", "dir", "cwd")[rng.randrange(3)]
             yield base + i, self.instantiate(rng, seq, mode, base + i)
+        # very long runs around the limits of an 8-bit process status: 255, 256, 257 (and 512) failing files
+        base = 1_500_000
+        small = {c: sorted(self.members[c], key=lambda f: len(self.pools.files[f]["content"]))[:3] for c in CLASSES}
+        k = 0
+        for nbad in ([255, 256, 257] if q else [64, 255, 256, 257, 511, 512, 513]):
+            for badcls in (("erroneous",) if q else ("erroneous", "fatal")):
+                rng = core.derive_rng("c04.huge", self.seed, k)
+                seq = [badcls] * nbad + ["clean", "notice"]
+                rng.shuffle(seq)
+                P = self.pools
+                tree = {"src": {}}
+                paths = []
+                for j, c in enumerate(seq):
+                    fid = small[c][j % len(small[c])]
+                    tree["src"][f"d{j}"] = {P.files[fid]["name"]: "@" + fid}
+                    paths.append((f"src/d{j}/{P.files[fid]['name']}", fid))
+                mode = "dir" if k % 2 == 0 else "explicit"
+                op = {"op": "cli", "argv": ["src"] if mode == "dir" else [p for p, _ in paths], "cwd": "."}
+                yield base + k, {"kind": "run", "mode": mode, "seq": ["…%d files" % len(seq)], "tree": tree, "selected": paths, "ops": [op]}
+                k += 1
         n_multi = 25 if q else 400
         base = 2_000_000
         idx = base
